@@ -55,7 +55,7 @@ def step (st : Option St) (line : String) : Option St × String :=
     let t := [a, b, c, d, e]
     match natKV t "fail", natKV t "nb", natKV t "rounds", natKV t "m", natKV t "k" with
     | some f, some nb, some r, some m, some k =>
-      if f > 8 || nb > 1 || r == 0 || m == 0 || k == 0 || r * m * k > 5000 then (st, "bad-op")
+      if f > 8 || nb > 1 || r == 0 || m == 0 || k == 0 || r * m * k > 5000 || (nb == 1 && m != 1) then (st, "bad-op")
       else (none, s!"ok n={r * m * (if nb == 1 then 2 * k + 1 else 1)}")
     | _, _, _, _, _ => (st, "bad-op")
   | ["new", a, b], _ =>
@@ -73,6 +73,9 @@ def step (st : Option St) (line : String) : Option St × String :=
     else match k.toNat? with
     | some k =>
       if k == 0 || k > 5000 || s.stopped then (st, "bad-op")
+      -- one producer at a time: with NotifyBlocks the harness cannot see whether the previous RescanFinished has been
+      -- enqueued while more than 20 notifications are pending, and refuses to start the next rescan
+      else if s.nb && s.q.out.length + s.q.overflow.length > queueCap then (st, "busy")
       else
         let q := feedL s.q (rescanSeq s.nb s.tip k)
         if op == "rescan" then
